@@ -624,7 +624,7 @@ fn get_zone_offset(zone_name: &str, date: (i32, u32, u32), time: (u32, u32, u32,
 
 /// Converts the fractional part of seconds, written as a decimal point followed
 /// by digits, into nanoseconds. Digits beyond the ninth are cut off.
-fn fraction_to_nanos(fractional: &str) -> u64 {
+pub(crate) fn fraction_to_nanos(fractional: &str) -> u64 {
   let digits: String = fractional.chars().skip(1).chain(std::iter::repeat('0')).take(9).collect();
   digits.parse::<u64>().unwrap_or(0)
 }
